@@ -155,6 +155,7 @@ type RunCtx struct {
 	cursor   int
 	execs    int
 	Recorded []uint64
+	MaxSteps int // scheduling-step cap for the executions of this run (0 = simrt default)
 }
 
 // NextConfig returns the scheduler configuration for the next simulated
@@ -163,7 +164,7 @@ type RunCtx struct {
 // the scenario's schedule seed and the execution number.
 func (rc *RunCtx) NextConfig() simrt.Config {
 	sc := rc.sc
-	c := simrt.Config{Seed: simrt.Mix(sc.Sched.Seed, uint64(rc.execs)), Policy: simrt.Policy(sc.Sched.Policy), PCTDepth: sc.Sched.PCTDepth, KeepLog: rc.KeepLog}
+	c := simrt.Config{Seed: simrt.Mix(sc.Sched.Seed, uint64(rc.execs)), Policy: simrt.Policy(sc.Sched.Policy), PCTDepth: sc.Sched.PCTDepth, KeepLog: rc.KeepLog, MaxSteps: rc.MaxSteps}
 	rc.execs++
 	if sc.Sched.Explicit || sc.Sched.Decisions != nil {
 		if rc.cursor < len(sc.Sched.Decisions) {
